@@ -18,14 +18,17 @@ import (
 
 // Cfg steers shape generation.
 type Cfg struct {
-	TagKey     string
-	MaxDepth   int
-	Conf       bool   // lib/conf: camelCase keys with initial-case variants, no optional=dep, lower-case map keys
-	NoEnv      bool   // no env= options (race run: env is process state)
-	AllStrings bool   // WithStringValues unmarshallers (path/form/header): leaf fields only, every document value is a string
-	EnvPrefix  string // unique prefix for env var names of this shape
-	nkey       int
-	nenv       int
+	TagKey           string
+	MaxDepth         int
+	Conf             bool   // lib/conf: camelCase keys with initial-case variants, no optional=dep, lower-case map keys
+	NoEnv            bool   // no env= options (race run: env is process state)
+	AllStrings       bool   // WithStringValues unmarshallers (path/form/header): leaf fields only, every document value is a string
+	EnvPrefix        string // unique prefix for env var names of this shape
+	NoDep            bool   // no optional=dep
+	NoUntagged       bool   // no untagged / foreign-tagged fields
+	NoStringOnString bool   // no ,string on string-kind fields (encoding/json renders those differently)
+	nkey             int
+	nenv             int
 }
 
 var keyWords = []string{"a", "b", "id", "name", "port", "host", "size", "max", "ttl", "mode", "tags", "rate", "x", "cfg", "item"}
@@ -273,7 +276,7 @@ func (c *Cfg) leafOpts(r *rand.Rand, k Kind, isPtr bool, sibOptional []string) (
 			}
 		}
 	case x < 88:
-		if k != Duration {
+		if k != Duration && !(c.NoStringOnString && k == String) {
 			o.FromString = true
 			switch r.Intn(5) {
 			case 0:
@@ -301,7 +304,7 @@ func (c *Cfg) leafOpts(r *rand.Rand, k Kind, isPtr bool, sibOptional []string) (
 			}
 		}
 	default:
-		if !c.Conf && len(sibOptional) > 0 {
+		if !c.Conf && !c.NoDep && len(sibOptional) > 0 {
 			o.Optional = true
 			o.Dep = sibOptional[r.Intn(len(sibOptional))]
 			o.DepNot = r.Intn(3) == 0
@@ -437,7 +440,7 @@ func (c *Cfg) genField(r *rand.Rand, depth int, sibOptional []string) *Field {
 			}
 		}
 	}
-	if !f.Anonymous && !c.AllStrings {
+	if !f.Anonymous && !c.AllStrings && !c.NoUntagged {
 		switch r.Intn(40) {
 		case 0:
 			f.Untagged = true
@@ -1237,3 +1240,6 @@ func YAMLCanonical(v any) bool {
 	}
 	return true
 }
+
+// RandOptions declares 2-4 options for a leaf kind.
+func RandOptions(r *rand.Rand, k Kind) []string { return randOptions(r, k) }
